@@ -44,7 +44,7 @@ type actorT struct {
 	K   string // Q request, F Freeze, W Warmup, R register, H WhereInt, N SetName, U URLFor
 	R   int    // route id (target of the request / object of the operation)
 	Val bool   // Q: the parameter value is an integer
-	RK  int    // R: 0 r.GET, 1 group.GET, 2 mount, 3 r.Version("v1").GET
+	RK  int    // R: 0 r.GET, 1 group.GET, 2 mount, 3 r.Version("v1").GET; 100+p: a route BELOW route p (/r<p>/:id/d<R>), same registrar as p
 }
 
 type caseT struct {
@@ -342,11 +342,16 @@ func (w *world) handler(id int) router.HandlerFunc {
 }
 
 func (w *world) reqPath(id int, valInt bool) string {
-	_, prefix := routePath(w.kindOf[id])
 	v := "abc"
 	if valInt {
 		v = "12"
 	}
+	a := w.kindOf[id]
+	if a.RK >= 100 { // below route p: the parent's parameter, then one more static segment
+		_, prefix := routePath(w.kindOf[a.RK-100])
+		return prefix + "/r" + strconv.Itoa(a.RK-100) + "/" + v + "/d" + strconv.Itoa(id)
+	}
+	_, prefix := routePath(a)
 	return prefix + "/r" + strconv.Itoa(id) + "/" + v
 }
 
@@ -390,9 +395,17 @@ func (w *world) do(a actorT) (out string) {
 		return "-"
 	case "R":
 		pattern, prefix := routePath(a)
+		rk := a.RK
+		if rk >= 100 {
+			pattern = "/r" + strconv.Itoa(rk-100) + "/:id/d" + strconv.Itoa(a.R)
+			rk = w.kindOf[rk-100].RK
+			if rk == 2 || rk >= 100 {
+				rk = 0
+			}
+		}
 		var rt *route.Route
 		p := panics(func() {
-			switch a.RK {
+			switch rk {
 			case 0:
 				rt = w.r.GET(pattern, w.handler(a.R))
 			case 1:
@@ -410,7 +423,7 @@ func (w *world) do(a actorT) (out string) {
 		w.objs[a.R] = rt // nil for a mount: no object is handed out
 		w.objMu.Unlock()
 		return "M a"
-	case "H", "N":
+	case "H", "N", "B":
 		w.objMu.Lock()
 		rt, ok := w.objs[a.R]
 		w.objMu.Unlock()
@@ -420,6 +433,8 @@ func (w *world) do(a actorT) (out string) {
 		p := panics(func() {
 			if a.K == "H" {
 				rt.WhereInt("id")
+			} else if a.K == "B" {
+				rt.WhereRegex("zz", hx.Pick(hx.NewRand(uint64(a.R)), []string{"[0-9", "(?P<", "a(b"})) // regexp.Compile rejects it
 			} else {
 				rt.SetName("n" + strconv.Itoa(a.R))
 			}
@@ -459,7 +474,7 @@ func runPhases(id string, k caseT, st *hx.Stats) string {
 		}
 	}
 	for _, a := range k.Actors { // requests / operations on ids nobody registers: still probe them
-		if _, ok := w.kindOf[a.R]; !ok && (a.K == "Q" || a.K == "H" || a.K == "N" || a.K == "U") {
+		if _, ok := w.kindOf[a.R]; !ok && (a.K == "Q" || a.K == "H" || a.K == "N" || a.K == "U" || a.K == "B") {
 			w.kindOf[a.R] = actorT{K: "R", R: a.R}
 			ids = append(ids, a.R)
 		}
@@ -555,7 +570,7 @@ func runPhases(id string, k caseT, st *hx.Stats) string {
 			l.Nat(a.R).Bool(a.Val)
 		case "R":
 			l.Nat(a.R).Nat(a.RK)
-		case "H", "N", "U":
+		case "H", "N", "U", "B":
 			l.Nat(a.R)
 		}
 	}
@@ -600,7 +615,11 @@ func runPhases(id string, k caseT, st *hx.Stats) string {
 		for _, a := range k.Actors {
 			st.Count("kind_" + a.K)
 			if a.K == "R" {
-				st.Count("register_via_" + []string{"router", "group", "mount", "version"}[a.RK])
+				if a.RK >= 100 {
+					st.Count("register_below_another_route")
+				} else {
+					st.Count("register_via_" + []string{"router", "group", "mount", "version"}[a.RK])
+				}
 			}
 		}
 		for _, e := range evs {
@@ -657,6 +676,14 @@ func fixedPhases() []caseT {
 		// the same on a route that lives in a version tree (observation passed on by b-c02-c10: not reproduced —
 		// the constraint is enforced; static version routes never look at constraints, before or after Warmup)
 		{Actors: []actorT{reg(1, 3), {K: "W"}, {K: "H", R: 1}, rq(1, false), rq(1, true)}, Plan: []int{0, 0, 1, 1, 1, 1, 2, 3, 4}},
+		// seeded C12-8 class: a route and routes BELOW it; explicit Warmup; a constraint on the shallower retained route
+		// re-registers it; the deeper ones must still be served (router, group, version tree)
+		{Actors: []actorT{reg(1, 0), reg(5, 101), reg(6, 101), {K: "W"}, {K: "H", R: 1}, rq(5, true), rq(6, false), rq(1, false)}, Plan: []int{0, 0, 1, 1, 2, 2, 3, 3, 3, 3, 4, 5, 6, 7}},
+		{Actors: []actorT{reg(1, 1), reg(5, 101), {K: "W"}, {K: "H", R: 1}, rq(5, true)}, Plan: []int{0, 0, 1, 1, 2, 2, 2, 2, 3, 4}},
+		{Actors: []actorT{reg(1, 3), reg(5, 101), {K: "W"}, {K: "H", R: 1}, rq(5, false)}, Plan: []int{0, 0, 1, 1, 2, 2, 2, 2, 3, 4}},
+		// seeded C12-6 class: a WhereRegex pattern that does not compile on a route with routes registered AFTER it
+		{Actors: []actorT{reg(1, 0), {K: "B", R: 1}, reg(2, 0), reg(3, 3), rq(2, true), rq(3, true), rq(1, false)}, Plan: []int{0, 0, 1, 2, 2, 3, 3, 4, 5, 6}},
+		{Actors: []actorT{reg(1, 1), reg(2, 0), {K: "W"}, {K: "B", R: 1}, rq(2, true), rq(1, false)}, Plan: []int{0, 0, 1, 1, 2, 2, 2, 2, 3, 4, 5}},
 		// K12e: a registration passes the flag test, the first request is served, then the registration goes on —
 		// through the router (pending list already drained) and through a version router after an explicit Warmup
 		{Actors: []actorT{reg(1, 0), reg(2, 0), rq(1, true), rq(2, true)}, Plan: []int{0, 0, 1, 2, 2, 2, 2, 2, 2, 2, 2, 1, 3, 3, 3}},
@@ -666,7 +693,7 @@ func fixedPhases() []caseT {
 	}
 }
 
-var oneShots = []actorT{reg(9, 0), reg(9, 1), reg(9, 2), reg(9, 3), {K: "H", R: 1}, {K: "N", R: 1}, {K: "U", R: 1}, {K: "F"}, {K: "W"}, rq(1, true), rq(1, false), rq(9, true)}
+var oneShots = []actorT{reg(9, 0), reg(9, 1), reg(9, 2), reg(9, 3), {K: "H", R: 1}, {K: "N", R: 1}, {K: "U", R: 1}, {K: "F"}, {K: "W"}, rq(1, true), rq(1, false), rq(9, true), {K: "B", R: 1}, rq(5, false)}
 var drivers = []actorT{rq(1, true), {K: "F"}, {K: "W"}, rq(1, false)}
 
 // familyOne: one driver goroutine advanced step by step, a one-shot operation inserted after k steps; a
@@ -687,11 +714,12 @@ func familyOne(emit func(caseT)) {
 						if named && gap > 0 {
 							continue
 						}
-						acts := []actorT{reg(1, 0)}
-						plan := []int{0, 0}
+						// route 1, a route below it (5) and a route registered after both (2)
+						acts := []actorT{reg(1, 0), reg(5, 101), reg(2, 0)}
+						plan := []int{0, 0, 1, 1, 2, 2}
 						if named {
 							acts = append(acts, actorT{K: "N", R: 1})
-							plan = append(plan, 1)
+							plan = append(plan, 3)
 						}
 						di := len(acts)
 						acts = append(acts, d, x)
@@ -743,7 +771,7 @@ func familyTwo(r *hx.Rand, n int, emit func(caseT)) {
 			if x.K == "R" {
 				x.R = 9 + j
 			}
-			if (x.K == "H" || x.K == "N") && acts[0].RK == 2 {
+			if (x.K == "H" || x.K == "N" || x.K == "B") && acts[0].RK == 2 {
 				x.R = 2 // a mount hands out no route object
 			}
 			if x.K == "N" && (named || j > 0) {
@@ -777,6 +805,11 @@ func familyRandom(r *hx.Rand, n int, emit func(caseT)) {
 				mountIDs[j] = true
 			}
 		}
+		if r.Chance(1, 3) { // a route below route 1
+			if !mountIDs[1] {
+				acts = append(acts, reg(7, 101), rq(7, r.Chance(1, 2)))
+			}
+		}
 		na := r.Range(2, 5)
 		namedOnce := map[int]bool{}
 		for j := 0; j < na; j++ {
@@ -801,6 +834,9 @@ func familyRandom(r *hx.Rand, n int, emit func(caseT)) {
 				acts = append(acts, actorT{K: "U", R: t})
 			case 8:
 				acts = append(acts, rq(r.Range(1, nr+1), true))
+			}
+			if r.Chance(1, 8) && !mountIDs[t] {
+				acts = append(acts, actorT{K: "B", R: t})
 			}
 		}
 		var plan []int
